@@ -608,8 +608,9 @@ fn run_loco(case: &C20Case, cx: &mut Ctx) {
                 pdct: 0,
                 init_time: 0.0,
                 hybrids: 0,
+                late_battery: false,
             };
-            let link = LinkSpec { length: 30000.0, elevs: vec![(0.0, 0.0), (30000.0, 0.0)], headings: vec![], cats: vec![], single: true, sets: vec![SetSpec { train_type: 1, head_end: false, params: vec![], limits: vec![(0.0, 30000.0, 20.0)] }] };
+            let link = LinkSpec { length: 30000.0, elevs: vec![(0.0, 0.0), (30000.0, 0.0)], headings: vec![], cats: vec![], single: true, sets: vec![SetSpec { train_type: 1, head_end: false, params: vec![], limits: vec![(0.0, 30000.0, 20.0)] }], coords: 0 };
             let net = build_chain(&[link]);
             let built = (|| -> anyhow::Result<f64> {
                 let tsb = altrios_core::train::TrainSimBuilder::new("t".into(), spec.build_config()?, con.clone(), None, None, None);
@@ -736,7 +737,14 @@ impl C20 {
         let loco_init = if target == 3 { Some(gen_loco_init(g)) } else { None };
         let others = if target == 3 { (0..g.usize(0, 3)).map(|_| gen_loco_init(g)).collect() } else { vec![] };
         let (cars, train_mass) = if target == 3 && g.bool(0.5) {
-            let cars: Vec<_> = (0..g.usize(1, 3)).map(|t| crate::gen::train::gen_car(g, ["Bulk", "Manifest", "Intermodal"][t], 40)).collect();
+            let mut cars: Vec<_> = (0..g.usize(1, 3)).map(|t| crate::gen::train::gen_car(g, ["Bulk", "Manifest", "Intermodal"][t], 40)).collect();
+            // a listed car type without cars (count 0), anywhere in the list
+            if g.bool(0.25) {
+                let mut z = crate::gen::train::gen_car(g, "Hopper", 5);
+                z.n = 0;
+                let at = g.usize(0, cars.len());
+                cars.insert(at, z);
+            }
             let sum: f64 = cars.iter().map(|c| c.mass() * c.n as f64).sum();
             let tm = if g.bool(0.5) { Some(Gen::round(sum * g.grid(0.7, 1.4, 14) + 0.5, 1)) } else { None };
             (cars, tm)
